@@ -498,7 +498,7 @@ impl ExecutableContent for Cancel {
             Ok(send_id) => {
                 get_global!(datamodel)
                     .delayed_send
-                    .remove(&send_id.lock().unwrap().to_string());
+                    .remove(&Some(send_id.lock().unwrap().to_string()));
             }
             Err(_) => {
                 datamodel.internal_error_execution();
@@ -670,15 +670,18 @@ impl ExecutableContent for SendParameters {
                 let target_str = target_guard.to_string();
                 // Identifies this send among all pending sends with the same send id.
                 let serial = PLATFORM_ID_COUNTER.fetch_add(1, Ordering::Relaxed);
+                // Locked until the guard is registered, the scheduled closure waits for it.
+                let registry = global_clone.clone();
+                let mut registry_lock = registry.lock().unwrap();
                 let tg = fsm.schedule(delay_ms, move || {
-                    if let Some(sid) = &send_id_clone {
+                    {
                         // Forget the guard of this send only, other pending sends with the
                         // same id stay scheduled.
                         let mut global = global_clone.lock().unwrap();
-                        if let Some(guards) = global.delayed_send.get_mut(sid) {
+                        if let Some(guards) = global.delayed_send.get_mut(&send_id_clone) {
                             guards.retain(|(s, _)| *s != serial);
                             if guards.is_empty() {
-                                global.delayed_send.remove(sid);
+                                global.delayed_send.remove(&send_id_clone);
                             }
                         }
                     }
@@ -687,19 +690,14 @@ impl ExecutableContent for SendParameters {
                         .send(&global_clone, target_str.as_str(), event.clone());
                 });
                 if let Some(g) = tg {
-                    if let Some(sid) = &send_id {
-                        datamodel
-                            .global()
-                            .lock()
-                            .unwrap()
-                            .delayed_send
-                            .entry(sid.clone())
-                            .or_default()
-                            .push((serial, g));
-                    } else {
-                        g.ignore();
-                    }
+                    // Sends without id are registered too: the end of the session cancels them.
+                    registry_lock
+                        .delayed_send
+                        .entry(send_id.clone())
+                        .or_default()
+                        .push((serial, g));
                 };
+                drop(registry_lock);
                 true
             } else {
                 error!("Unknown io-processor {}", type_val_str);
